@@ -728,6 +728,11 @@ class NP:
         reg = ctx.ghost.setdefault('merged', {})
         if key in reg:
             return reg[key]
+        if not is_sym(A) and A == 1:
+            # (1, B) <-> (B,): the flat index is the column index
+            ident = (lambda i: z3.IntVal(0), lambda i: to_z3(i), lambda a, b: to_z3(b), B)
+            reg[key] = ident
+            return ident
         if not is_sym(A) and not is_sym(B):
             AB = A * B
         else:
